@@ -31,6 +31,10 @@ caught compiles, keeps `go test ./core/` green and made the quick tier print VIO
       record varies over delete/erase/set/get/invalidate/copy/reload, then the sources of the
       stored rule values are changed and every rule field is read);
       bin/seedtest -> VIOLATION (Get of a rule field returns the stale stored value)       -> caught
+  M7  surecord.go copyDeps(): no ensureDeps (Copy of a record made from a database row whose
+      dependents were not loaded yet gets an empty dependents map); compiles, only checked with
+      the conformance part (VERIF_SKIP_MC=1, seed 4): rejected at a Get of a rule field of the
+      copy that returns the stale stored value                                             -> caught
   (M2  copy sharing the invalid map with the original is also caught, but the repository's own
        TestSuRecord_Concurrency already fails on it - concurrent map write - so it is not counted)
 """
